@@ -76,6 +76,7 @@ ASSUMPTIONS = [
 ]
 REQUIRED_MONITORS = [
     "stripped_vs_logref",
+    "slab_holes",
     "sliced_output_stripped",
     "plain_overflowed_or_underflowed",
     "array_contract_stripped",
@@ -160,6 +161,27 @@ def mantissas(case, scales, tag="arrays", lift=None):
         for ti, ix, ds in case.get("slabs", ()):
             if ti != i:
                 continue
+            if case.get("holes") and m.ndim >= 2 and [ti, ix] == list(case["slabs"][0][:2]):  # one operand only: two patterns could cancel a whole slice
+                # "holes": in the LARGEST slab(s) about half of the entries are exactly zero, so some output
+                # entries are fed by the small slabs only - a slice that is negligible next to the largest
+                # entry of the running sum is then the whole value of those entries
+                hr = np.random.default_rng(rng_for(case["case_seed"], "holes", i, ix).getrandbits(64))
+                big = [k for k, d_ in enumerate(ds) if d_ == max(ds)]
+                ax = term.index(ix)
+                gone = {r[0] for r in case.get("removed", ())}
+                # the pattern lives on the axes that survive slicing (the same for every value of the removed
+                # ones) and never covers everything: no slice of this operand becomes exactly zero (that is the
+                # separate zero family)
+                kept = [a for a in range(m.ndim) if a != ax and term[a] not in gone and term.count(term[a]) == 1]
+                if kept:
+                    shape = [m.shape[a] if a in kept else 1 for a in range(m.ndim) if a != ax]
+                    mask = hr.random(size=shape) < 0.5
+                    if mask.all():
+                        mask.flat[0] = False
+                    mv = np.moveaxis(m, ax, 0)
+                    full = np.broadcast_to(mask, mv.shape[1:])
+                    for k in big:
+                        mv[k][full] = 0.0
             if ix in lift:
                 extra += float(ds[lift[ix]])
                 continue
@@ -734,6 +756,7 @@ def gen_main(rng, cs, tier):
         "family": "main", "entry": entry, "net": net.to_json(), "ssa": [list(p) for p in ssa],
         "removed": removed, "pattern": pattern, "scales": scales, "slabs": slabs, "zero": [],
         "kind": rng.choice(["sign", "sign", "pos", "pos", "complex"]), "opts": opts, "case_seed": cs,
+        "holes": bool(slabs) and rng.random() < 0.4,
     }
     if entry == "expr":
         p2 = _weighted(rng, PATTERNS)
@@ -962,6 +985,8 @@ def run_case(rep, case, rng):
     )
     rep.count("entry", case["entry"])
     rep.count("pattern", case["pattern"])
+    if case.get("holes"):
+        rep.mon("slab_holes")
     if res == SKIP:
         rep.count("skipped", case["entry"])
         return
